@@ -87,6 +87,22 @@ def clientChained (s : ServeWiring) (c : DirectClient) : Bool :=
 /-- server.Serve: every direct client is built with both auth interceptors. -/
 def gatewayChainOk (s : ServeWiring) : Bool := s.directClients.all (clientChained s)
 
+/-- The direct clients `Serve` puts behind the HTTP gateway for service `svc` in a run with plugins
+    enabled / disabled (the Configure service has one client per branch of `if EnablePlugins`). -/
+def gatewayClients (s : ServeWiring) (plugins : Bool) (svc : String) : List DirectClient :=
+  s.directClients.filter fun c =>
+    c.ctor == "New" ++ svc ++ "DirectClient" &&
+    (svc != "Configure" || c.impl == (if plugins then "server" else "&nullPluginServer{}"))
+
+/-- A gateway request for a method of kind `kind` of service `svc`, without valid credentials, is
+    refused iff the service has a direct client and each was built with the interceptor of that kind
+    (unary methods go through `DirectUnaryInterceptor`, streaming ones through
+    `DirectStreamInterceptor`). -/
+def gatewayRefuses (s : ServeWiring) (plugins : Bool) (svc : String) (streaming : Bool) : Bool :=
+  let cs := gatewayClients s plugins svc
+  !cs.isEmpty && cs.all fun c =>
+    if streaming then decide (c.streamOpt = some s.authStreamVar) else decide (c.unaryOpt = some s.authUnaryVar)
+
 /-- every registered service has a direct client behind the gateway and vice versa -/
 def servicesOk (T : Tables) : Bool :=
   T.methods.all (fun m => T.serve.registered.any (fun r => "gripql." ++ r.1 == m.service)) &&
